@@ -84,7 +84,7 @@ def acc_reach(cg, n, depth=6):
             for _, a, _ in vm.gas_accessors_called(f):
                 acc.add(a)
             for y in cg.edges.get(x, ()):
-                if y not in seen and y.startswith("fuel_vm::"):
+                if y not in seen and y.lstrip("<").startswith("fuel_vm::"):
                     seen.add(y)
                     nxt.append(y)
         frontier = nxt
